@@ -845,6 +845,45 @@ func c13JSON(tier string, idx int, r *Result) {
 			case !mEqual(back, v):
 				fail("JSON:roundtrip-differs", fmt.Sprintf("to_json gave %s; parsed back under type %s: %s", text, t, back))
 			}
+			// the same with the conversions of `text.parse_json() as T` (whole numbers come back as
+			// ints and have to become floats again, wherever they sit)
+			var backAs *mval
+			perrAs := ""
+			pcAs, _ := guard(lib+"/value.parse_json+DeepCast(as)", func() {
+				if lib == "vm" {
+					p, e := rvCall(value.NewValueString(text), "parse_json")
+					if e != "" {
+						perrAs = "parse_json: " + e
+						return
+					}
+					c, ce := value.DeepCast(*p, t.astType(), noSpan, true)
+					if ce != nil {
+						perrAs = "as: " + ce.Message()
+						return
+					}
+					backAs, _ = fromRV(*c)
+				} else {
+					p, e := ivCall(ivalue.NewValueString(text), "parse_json")
+					if e != "" {
+						perrAs = "parse_json: " + e
+						return
+					}
+					c, ce := ivalue.DeepCast(*p, t.astType(), noSpan, true)
+					if ce != nil {
+						perrAs = "as: " + (*ce).Message()
+						return
+					}
+					backAs, _ = fromIV(*c)
+				}
+			})
+			switch {
+			case pcAs != "":
+				fail(pcAs, "parse_json / `as` cast panicked on "+text)
+			case perrAs != "":
+				fail("JSON:roundtrip-with-as-rejected", fmt.Sprintf("to_json gave %s; `%s.parse_json() as %s` failed: %s", text, text, t, perrAs))
+			case !mEqual(backAs, v):
+				fail("JSON:roundtrip-with-as-differs", fmt.Sprintf("to_json gave %s; parsed back with `as %s`: %s", text, t, backAs))
+			}
 		}
 	}
 	r.Trans(nrun * 3)
